@@ -112,10 +112,18 @@ func (r *Recomposer) registerComposer(rt reflect.Type, fun RecomposeFunc) (*comp
 		if len(f.Name) == 0 || ([]byte(f.Name)[0]&0x20) != 0 {
 			continue
 		}
+		// Follow containers of containers ([][]T, map[string][]T, *[2]T) down
+		// to the element type so it is registered now and not by the first
+		// Recompose calls.
 		ft := f.Type
-		switch ft.Kind() {
-		case reflect.Array, reflect.Slice, reflect.Map, reflect.Ptr:
-			ft = ft.Elem()
+	unwrap:
+		for {
+			switch ft.Kind() {
+			case reflect.Array, reflect.Slice, reflect.Map, reflect.Ptr:
+				ft = ft.Elem()
+			default:
+				break unwrap
+			}
 		}
 		if _, has := r.composers[ft.Name()]; has {
 			continue
